@@ -2258,3 +2258,63 @@ Proof.
     + rewrite Et'. change (evs t ([EStart] ++ tail')) with ((t, EStart) :: evs t tail'). cbn [fold_left]. split; [exact REf|]. split; [exact RFf|].
       replace (m14_step m (t, EStart)) with (m14r_step m (t, EStart)) by (apply r_eq_step; intros _; reflexivity). exact Eqf.
 Qed.
+
+Lemma F_init : forall scr, FRel FNone (winit scr) m14_0.
+Proof.
+  intro scr.
+  assert (Tp : forall u, tpipe (thr (winit scr) u) = -1) by (intro u; reflexivity).
+  assert (Nw : forall u, ~ wkr (winit scr) u) by (intros u [_ W]; rewrite Tp in W; lia).
+  constructor; cbn [m14_0 m14_psend m14_recvd m14_dropped m14_late dps on_pipe memZ existsb get_tid map].
+  - intros t q x Y. discriminate Y.
+  - intros t q Y. discriminate Y.
+  - intros q _. cbn. repeat split; reflexivity.
+  - intros q Y. discriminate Y.
+  - intros t W. exfalso. exact (Nw t W).
+  - intros t c W. exfalso. exact (Nw t W).
+  - intros u W. exfalso. exact (Nw u W).
+  - intros t m0 q x Hin. cbn in Hin. destruct Hin.
+  - intros t q x Hq. cbn in Hq. discriminate Hq.
+  - intros t q Hq. cbn in Hq. discriminate Hq.
+  - intros t m0 q Hin. cbn in Hin. destruct Hin.
+  - intros t L. unfold is_late in L. cbn in L. discriminate L.
+  - intros t [].
+  - constructor.
+  - intros t m0 v Hin. cbn in Hin. destruct Hin.
+  - intros t j Hin. cbn in Hin. destruct Hin.
+  - intros t c Hq. cbn in Hq. discriminate Hq.
+Qed.
+
+Theorem wrun_EF : forall sched st m,
+  AllInv st -> SpInv st -> BRel st (m14_b m) -> ERel ENone st m -> FRel FNone st m -> pnew_ok (flatten (snd (wrun st sched))) ->
+  fold_left m14_step (flatten (snd (wrun st sched))) m = fold_left m14r_step (flatten (snd (wrun st sched))) m.
+Proof.
+  induction sched as [|t rest IH]; intros st m A Sp B RE RF Hok; [reflexivity|].
+  cbn [wrun] in *.
+  destruct (wstep st t) as [st1 ev] eqn:E.
+  destruct (wrun st1 rest) as [st2 tr] eqn:Er. cbn [fst snd] in *.
+  rewrite flatten_cons in *. rewrite !fold_left_app.
+  assert (Hq : forall q, In (ECmd (CPNew q)) ev -> 0 <= q).
+  { intros q Hin. apply (Hok t q). apply in_or_app. left. unfold evs. apply in_map_iff. exists (ECmd (CPNew q)). auto. }
+  destruct (wstep_EF st m t st1 ev A Sp B RE RF E Hq) as [RE1 [RF1 Eq1]].
+  pose proof (wstep_All st t st1 ev A E) as A1.
+  assert (Sp1 : SpInv st1) by (destruct A as [[_ [P _]] _ _ _ _ _ _ _ _ _]; exact (wstep_Sp st t st1 ev P Sp E)).
+  assert (B1 : BRel st1 (m14_b (fold_left m14r_step (evs t ev) m))).
+  { rewrite m14r_b_fold. destruct A as [M _ _ _ _ _ X Y _ _]. exact (wstep_B st _ t st1 ev M X Y B E). }
+  rewrite Eq1. specialize (IH st1 _ A1 Sp1 B1 RE1 RF1). rewrite Er in IH. cbn [snd] in IH. apply IH.
+  intros u q Hin. apply (Hok u q). apply in_or_app. right. exact Hin.
+Qed.
+
+(** C14, trace form: the executable monitor [C14_ok] of coq/W/Monitors.v is true on the trace of every run of the
+    model whose [pnew] commands name non-negative pipes. *)
+Theorem C14_monitor : forall scr sched,
+  pnew_ok (flatten (wtrace scr sched)) -> C14_ok (flatten (wtrace scr sched)) false = true.
+Proof.
+  intros scr sched Hok. pose proof (C14r_monitor scr sched Hok) as Hr. unfold wtrace in *.
+  pose proof (wrun_EF sched (winit scr) m14_0 (All_init scr) (Sp_init scr) (mb0_rel scr) (E_init scr) (F_init scr) Hok) as Eq.
+  unfold C14_ok, C14r_ok in *. fold m14_0. cbn zeta in *. rewrite Eq.
+  set (m := fold_left m14r_step (flatten (snd (wrun (winit scr) sched))) m14_0) in *.
+  cbn [andb negb]. rewrite andb_true_r.
+  apply andb_true_iff in Hr. destruct Hr as [H1 H2]. rewrite H1. cbn [andb].
+  destruct (b_exit (m14_b m)); [|reflexivity]. destruct (b_notif (m14_b m)); [reflexivity|]. cbn [negb andb] in *. exact H2.
+Qed.
+Print Assumptions C14_monitor.
